@@ -17,7 +17,7 @@ RULE = ('case = one rule AST (C01 generator plus targeted shapes: look-ahead wil
         'verbatim and in order (the URL decomposes as L0 v1 L1 v2 ...). Plus: two threads calling url() on the same fresh Route under every single-preemption schedule. Cases with an empty binding are counted, not judged; float texts that str(float) '
         'renders in exponent notation are the open finding K19 (excluded by construction, witness run separately). Non-trivial = >= 1 wildcard; distinct by '
         '(rule text, path).')
-ASSUMPTIONS = ['reference matcher vlib/rules.py is trusted', 'empty wildcard bindings are an unspecified zone (counted)',
+ASSUMPTIONS = ['reference matcher vlib/rules.py is trusted (where the router matches a path the reference does not, the router\'s own assignment is round-tripped)', 'empty wildcard bindings are an unspecified zone (counted)',
                'float values >= 1e16 or < 1e-4 in magnitude are excluded from the search (open known finding K19) and counted']
 
 
@@ -71,7 +71,8 @@ def case_st(draw):
     parts = []
     for s in ast:
         parts.append(s[1] if s[0] == 'lit' else _val(draw, s))
-    return {'ast': ast, 'choice': draw(st.lists(st.integers(0, 30), max_size=3)), 'spell': draw(st.integers(0, 1)), 'path': ''.join(parts)}
+    sibs = [draw(R.derived_rule_st(ast)) for _ in range(draw(st.sampled_from([0, 0, 1, 2])))]
+    return {'ast': ast, 'choice': draw(st.lists(st.integers(0, 30), max_size=3)), 'spell': draw(st.integers(0, 1)), 'path': ''.join(parts), 'siblings': sibs}
 
 
 def _exp_float(v):
@@ -98,7 +99,26 @@ def check_case(ctx, case, witness=False):
     sp = path.strip('/')
     b = R.match(ast, sp, True)
     if b is None:
+        # the reference sees no match. Should the ROUTER nevertheless match the path (C01 judges that), the assignment it produced must
+        # still round-trip: 'for all assignments produced by matching a path'
         ctx.count('constructed_path_does_not_match')
+        if all(s[0] == 'lit' or s[1] for s in ast):
+            from ombott.router.radirouter import RadiRouter as _RR
+            rt = _RR()
+            try:
+                route0 = rt.add(text, 'GET', lambda **kw: kw)
+            except Exception:
+                return
+            ep0, _ = rt.resolve(path, ['GET'])
+            if ep0 is not None and all(v != '' for v in ep0[1].values()):
+                try:
+                    u0 = route0.url(**ep0[1])
+                except Exception as e:
+                    raise CheckFailure(f'rule {text!r}: the router matches {path!r} with {ep0[1]!r}, and url(**that) raised {type(e).__name__}: {e}')
+                ep1, _ = rt.resolve(u0, ['GET'])
+                if ep1 is None or ep1[1] != ep0[1]:
+                    raise CheckFailure(f'rule {text!r}: the router matches {path!r} with {ep0[1]!r}; url(**that) = {u0!r}, which resolves with {ep1[1] if ep1 else None!r}')
+                ctx.count('router_only_match_round_trips')
         return
     if any(t == '' for _, t, _ in b):
         ctx.exclude('unspecified_empty_binding')
@@ -110,12 +130,29 @@ def check_case(ctx, case, witness=False):
         ctx.exclude('int_negative_zero_after_wildcard(K19-int-negative-zero)')
         return
     router = RadiRouter()
+    # other rules registered before the one under test (sharing prefixes / wildcard positions with it): whatever they leave in the tree
+    # must not change what the rule under test matches and builds
+    for sib in case.get('siblings') or ():
+        stext = R.render(R.merge(sib), case['choice'], case['spell'])
+        if stext is None or not R.legal(R.merge(sib)) or R.pattern_key(R.merge(sib)) == R.pattern_key(ast):
+            continue
+        try:
+            router.add(stext, 'POST', lambda **kw: kw)
+            ctx.count('sibling_rule_registered_first')
+        except Exception:
+            ctx.count('sibling_rule_rejected')
     try:
         route = router.add(text, 'GET', lambda **kw: kw)
     except Exception as e:
         ctx.count('rule_rejected')
         return
     end_point, err = router.resolve(path, ['GET'])
+    if end_point is not None and end_point[0].route is not route:
+        ctx.count('path_served_by_a_sibling_rule')
+        return
+    if end_point is None and case.get('siblings') and err and err[0] == 405:
+        ctx.count('path_served_by_a_sibling_rule')
+        return
     if end_point is None:
         raise CheckFailure(f'rule {text!r}: reference matcher matches {path!r} with {b!r} but the router answers {err[0]}')
     named = R.named(b)
@@ -263,6 +300,25 @@ def run(ctx):
                         ctx.guarded(check_case, {'ast': R._fix(ast), 'choice': [1], 'spell': 0, 'path': path})
                         ngrid += 1
         ctx.count('regex_pool_grid', ngrid)
+        # values spelled in ways Python's own number parsers accept but the filters' masks may not (signs, blanks, underscores), behind another wildcard
+        W = lambda n, f=None, a=None: ['w', n, f, a]   # noqa
+        for ast, paths in (([lit('/'), W('a', 'int'), W('b', 'int')], ['/1+2', '/1-2', '/+1+2', '/12', '/1 2', '/1_0-3']),
+                           ([lit('/v'), W('major', 'int'), W('minor', 'int')], ['/v1+0', '/v1-0', '/v10']),
+                           ([lit('/'), W('n', 're', '[a-z0-9]+'), W('d', 'int')], ['/ab+3', '/ab-3', '/ab3']),
+                           ([lit('/'), W('x', 'float'), W('y', 'float')], ['/1.5+2.5', '/1.5-2.5', '/.5-.5', '/1+.5']),
+                           ([lit('/tz/utc'), W('off', 'int')], ['/tz/utc+3', '/tz/utc-3'])):
+            for pth in paths:
+                ctx.guarded(check_case, {'ast': R._fix(ast), 'choice': [1], 'spell': 0, 'path': pth})
+        # a rule registered after a sibling that spells the same wildcard position with / without a converting filter
+        for first, second, paths in (([lit('/item/'), W('id', 'int'), lit('/edit')], [lit('/item/'), W('id'), lit('/view')], ['/item/42/view', '/item/abc/view']),
+                                     ([lit('/item/'), W('id'), lit('/view')], [lit('/item/'), W('id', 'int'), lit('/edit')], ['/item/42/edit']),
+                                     ([lit('/price/'), W('v', 'float'), lit('/net')], [lit('/price/'), W('v'), lit('/gross')], ['/price/1.50/gross', '/price/x/gross']),
+                                     ([lit('/u/'), W('n', 're', '[a-c]+'), lit('/a')], [lit('/u/'), W('n'), lit('/b')], ['/u/abc/b', '/u/zzz/b']),
+                                     ([lit('/u/'), W('n', 'path'), lit('/a')], [lit('/u/'), W('n'), lit('/b')], ['/u/x/b'])):
+            for pth in paths:
+                for spell in (0, 1):
+                    ctx.guarded(check_case, {'ast': R._fix(second), 'choice': [1], 'spell': spell, 'path': pth, 'siblings': [R._fix(first)]})
+        ctx.count('sibling_rule_grid')
         for ast, paths in (([lit('/left-'), ['w', 'x', 'float', None]], ['/left-2.5', '/left-7']),
                            ([lit('/p/'), ['w', 'p', 'path', None], lit('/end/'), ['w', None, 'int', None]], ['/p/a/b/end/12', '/p/x/end/7']),
                            ([lit('/'), ['w', 'a', None, None], lit('/'), ['w', 'b', 're', '[a-c]+'], lit('.html')], ['/tom/abc.html', '/é/a.html'])):
